@@ -62,8 +62,21 @@ def probe(hbin):
     return fl
 
 
+def probe_unroll(hbin):
+    """Does `e{n,}` with n = u32::MAX make the unroller panic at once (the original `min + 2` arithmetic) or try to build 2^32 clones (inclusive
+    ranges of the repaired unroller)?  Asked under a small memory/time bound."""
+    rc, out = sh("bash -c 'ulimit -v 1500000; timeout 20 %s one \"(r0 n (repmin 4294967295 (str 78)))\"' 2>&1" % hbin, timeout=60)
+    for line in out.split("\n"):
+        p = line.split("\t")
+        if len(p) >= 5 and p[0] == "P" and p[2] == "2":
+            return 1 if p[4] == "PANIC" else 0
+    return 0
+
+
 def model_flags(fl):
     f = []
+    if fl.get("ovf"):
+        f.append("--ovf")
     if fl["fix_pop"]:
         f.append("--fixpop")
     if fl["extras"] and fl["fix_map"] and fl["fix_iter"]:
@@ -126,11 +139,13 @@ def run(tier, seed, replay=None):
     flags, state = {}, {}
     for label, hbin in builds.items():
         state[label] = probe(hbin)
+        state[label]["ovf"] = probe_unroll(hbin)
         flags[label] = model_flags(state[label])
-    log("C05: implementation state (probe): POP_ALL in child_modifies_state %s; OptimizedExpr traversals into RepOnce/NodeTag %s -> model flags default `%s`, extras `%s`" % (
+    log("C05: implementation state (probe): POP_ALL in child_modifies_state %s; OptimizedExpr traversals into RepOnce/NodeTag %s ; unroller ranges %s -> model flags default `%s`, extras `%s`" % (
         "present (fixes/C05-1)" if state["default"]["fix_pop"] else "missing (as shipped)",
         "present (fixes/C05-2)" if state["extras"]["fix_map"] and state["extras"]["fix_iter"] else
-        ("partial" if state["extras"]["fix_map"] or state["extras"]["fix_iter"] else "missing (as shipped)"), flags["default"], flags["extras"]))
+        ("partial" if state["extras"]["fix_map"] or state["extras"]["fix_iter"] else "missing (as shipped)"),
+        "`1..num + 1` (overflow panics)" if state["default"]["ovf"] else "inclusive (no overflow)", flags["default"], flags["extras"]))
 
     if replay:
         rj = json.load(open(replay))
@@ -163,7 +178,7 @@ def run(tier, seed, replay=None):
         hbin = guard + hbin
         jobs.append((label, "%s witness | %s %s" % (hbin, runner, flags[label])))
         for i in range(shards):
-            jobs.append((label, "%s struct %d %d | %s %s --spec %d" % (hbin, n_struct, seed * 100 + i, runner, flags[label], speclen)))
+            jobs.append((label, "%s struct %d %d %s | %s %s --spec %d" % (hbin, n_struct, seed * 100 + i, "huge" if state[label]["ovf"] else "-", runner, flags[label], speclen)))
             jobs.append((label, "%s sem %d %d %d | %s %s" % (hbin, n_sem, seed * 100 + 50 + i, maxlen, runner, flags[label])))
     mism, stats, lines = [], {}, []
     for i in range(0, len(jobs), NPROC):
